@@ -9,6 +9,7 @@ import (
 	"github.com/jech/storrent/hash"
 	"github.com/jech/storrent/known"
 	"github.com/jech/storrent/peer"
+	"github.com/jech/storrent/protocol"
 )
 
 func vLiveTorrent() *Torrent {
@@ -76,4 +77,72 @@ func H_C17_api() {
 	} else {
 		vReach("answered")
 	}
+}
+
+// H_C17_dying_peer: a peer goroutine (the real peer.Run) is told to go away while the torrent is
+// ALIVE, the torrent's event queue is full, and the torrent's loop is in the middle of writing
+// two events to that very peer (the real writePeer; the peer's queue fills up). The peer must
+// release the torrent (declare itself done) before it needs the torrent to take its final
+// events - otherwise the two wait for each other for ever and every later operation on the
+// torrent hangs. Every schedule within the pre-emption bound; a state in which nobody can move
+// is reported as 'blocked'.
+func H_C17_dying_peer() {
+	t := vLiveTorrent()
+	tev := make(chan peer.TorEvent, 2)
+	tev <- peer.TorGoAway{}
+	tev <- peer.TorGoAway{}
+	torDone := make(chan struct{})
+	p := peer.VNewPeer(&t.Pieces, tev)
+	p.Event <- peer.PeerDone{}
+	p.Event <- peer.PeerInterested{Interested: true}
+	p.Event <- peer.PeerInterested{Interested: true}
+	p.Event <- peer.PeerInterested{Interested: true}
+	exited := make(chan struct{})
+	go func() {
+		peer.VRunLive(p, tev, torDone)
+		close(exited)
+	}()
+	// the torrent's loop: two events for this peer, then back to serving its own queue
+	writePeer(p, peer.PeerInterested{Interested: true})
+	writePeer(p, peer.PeerInterested{Interested: true})
+	for {
+		select {
+		case <-tev:
+		case <-exited:
+			vReach("peer-exited")
+			return
+		}
+	}
+}
+
+// H_C17_kill: a torrent started by the REAL AddTorrent (its loop and its deletion sequence run as
+// goroutines) is killed: when Kill reports success deletion is complete - the torrent is no
+// longer listed, its loop has stopped, Deleted is closed - in every schedule within the bound.
+func H_C17_kill() {
+	t := vLiveTorrent()
+	t.Hash = hash.Hash([]byte{7, 1, 2, 3, 4, 5, 6, 7, 8, 9, 10, 11, 12, 13, 14, 15, 16, 17, 18, 19})
+	del(t.Hash)
+	_, err := AddTorrent(vLiveContext(), t)
+	vAssert(err == nil, "a torrent that is not yet known is added")
+	vAssert(Get(t.Hash) == t, "a started torrent is listed")
+	err = t.Kill(vLiveContext())
+	vAssert(err == nil, "killing a live torrent succeeds")
+	vReach("killed")
+	vAssert(vClosed(t.Done), "after Kill the torrent's loop has stopped")
+	vAssert(vClosed(t.Deleted), "after Kill deletion is complete")
+	vAssert(Get(t.Hash) == nil, "after Kill the torrent is no longer listed")
+	_, err = t.GetStats()
+	vAssert(err == ErrTorrentDead, "operations on a killed torrent fail with 'torrent is dead'")
+}
+
+// H_C17_newpeer: a connection handed to a torrent that is already dead (its loop has stopped, its
+// event queue still has room): the connection must not be left open with nobody to serve it.
+func H_C17_newpeer() {
+	t := vLiveTorrent()
+	close(t.Done)
+	conn := &vInConn{}
+	id := make([]byte, 20)
+	err := t.NewPeer("", conn, netip.AddrPort{}, true, protocol.HandshakeResult{Hash: t.Hash, Id: id}, nil)
+	vReach("returned")
+	vAssert(err != nil && conn.closed, "a connection handed to a dead torrent is refused and closed")
 }
